@@ -249,3 +249,10 @@ def run(spec, rec):
             if regime == "deep" and F is None:
                 plain = np.asarray(full.project(nsub).data)
                 rec.close("deep-coverage-equals-projection", relerr(md[mask], plain[mask]), 1e-9, site=site, tags=tags)
+                # the two corner bins of the corrected model are real output too (sites that are monomorphic in the subsample): they
+                # hold the projection of the *visible* model entries only -- nothing stored under the model's corner masks gets in
+                vis = np.where(np.asarray(full.mask), 0.0, np.asarray(full.data, float))
+                plain0 = gen.project_ref(vis, nsub)
+                if not np.asarray(np.ma.getmaskarray(m)).any():
+                    rec.close("deep-coverage-corners", relerr(md, plain0), 1e-9, site=site, tags=tags)
+                    rec.close("sites-only-redistributed", abs(float(md.sum()) - float(vis.sum())) / float(vis.sum()), 1e-9, site=site, tags=tags)
